@@ -173,6 +173,14 @@ theorem ofProto_spec (secret : List Nat) (a : Algo) (step n : Nat) (t : Totp) :
     simp only at h1 h2 h3
     rw [h1, h2, h3]
 
+/-- The stored (`DbTotpV1`) and wire (`ProtoTotp`) forms name the same algorithm in both
+directions, and a stored token without a digit count has six digits. -/
+theorem conversions_keep_algo (a : Algo) :
+    Algo.ofProto a = a ∧ Algo.toProto a = a ∧ Algo.ofDb (Algo.toDb a) = a ∧
+    Algo.ofDb .S1 = .Sha1 ∧ Algo.ofDb .S256 = .Sha256 ∧ Algo.ofDb .S512 = .Sha512 ∧
+    Digits.ofU8 dbDefaultDigits = some .Six := by
+  cases a <;> decide
+
 /-! ## Non-vacuity and known answers (kernel evaluation of the very definitions above) -/
 
 /-- RFC 6238 Appendix B seeds. -/
